@@ -29,7 +29,7 @@ ASSUMPTIONS = [
     "a delegation issued from inside a tied rank is unspecified",
 ]
 REPORT_COUNTERS = ["programs", "calls", "delegations", "chains_len3", "chains_end_amb", "chains_end_none",
-                   "fresh_call_delegations", "mode_variant", "mode_mixin", "mode_method", "fnext_sites", "dep_programs",
+                   "fresh_call_delegations", "mode_variant", "mode_mixin", "mode_method", "fnext_sites", "dep_programs", "keyed_group_programs",
                    "dep_rank_shared"]
 
 
@@ -51,6 +51,22 @@ def _gen_dep_case(rng):
     methods share a rank, each may delegate"""
     npos = rng.choice([1, 1, 2])
     methods = []
+    if rng.random() < 0.3:
+        # a keyed group: four or more single-valued Literal methods with disjoint values (looked up in a table), some of
+        # which raise or delegate, over plain methods
+        keys = rng.sample([0, 1, 2, 3, 4, 5], rng.randint(4, 6))
+        for i, k in enumerate(keys):
+            pos = [{"n": "a0", "t": ["L", k]}]
+            if npos == 2:
+                pos.append({"n": "a1", "t": "object"})
+            methods.append({"mid": i, "pos": pos, "kw": [], "prio": 0, "kind": rng.choice(["leaf", "next", "next", "raise", "raise"])})
+        for t in rng.sample(["int", "object", "MyInt"], rng.randint(1, 2)):
+            pos = [{"n": "a0", "t": t}]
+            if npos == 2:
+                pos.append({"n": "a1", "t": "object"})
+            methods.append({"mid": len(methods), "pos": pos, "kw": [], "prio": 0, "kind": rng.choice(["leaf", "next", "raise"])})
+        return {"hier": [], "methods": methods, "npos": npos, "mode": "plain", "split": len(methods), "dep": True, "keyed": True,
+                "callseed": rng.randrange(1 << 30)}
     for i in range(rng.randint(2, 7)):
         pos = [{"n": "a0", "t": rng.choice(DEP_POOL)}]
         if npos == 2:
@@ -106,6 +122,8 @@ def check_case(spec, res):
     res.sample(spec, spec["mode"])
     res.count("fnext_sites", sum(1 for m in methods if m["kind"] in ("fnext", "fnextalt")))
     rng = random.Random(spec["callseed"])
+    if spec.get("keyed"):
+        res.count("keyed_group_programs")
     if spec.get("dep"):
         res.count("dep_programs")
         pool = DEP_VALUES
